@@ -83,6 +83,47 @@ def oldDecision (t : Target) (_op : AOp) : Decision :=
   | .field => .accept
   | .nonVar => .diagNotVar
 
+/-! ### `record_pat_mutability`: the `let` / `var` flag reaches every binding of the pattern -/
+
+/-- patterns as `record_pat_mutability` sees them (pattern node ids stand for the bindings) -/
+inductive Pat where
+  | wild                          -- `_`, literals
+  | bind (id : Nat)               -- `x`
+  | tuple (elems : List Pat)
+  | variant (data : List Pat)     -- positional or named payload, or none
+  | struct (fields : List Pat)
+  | or (l r : Pat)
+
+mutual
+/-- the entries `record_pat_mutability(ctx, pat, is_mutable)` inserts into `pat_is_mutable` -/
+def recordPat (isMutable : Bool) : Pat → List (Nat × Bool)
+  | .wild => []
+  | .bind id => [(id, isMutable)]
+  | .tuple es => recordPats isMutable es
+  | .variant ds => recordPats isMutable ds
+  | .struct fs => recordPats isMutable fs
+  | .or l r => recordPat isMutable l ++ recordPat isMutable r
+
+def recordPats (isMutable : Bool) : List Pat → List (Nat × Bool)
+  | [] => []
+  | p :: ps => recordPat isMutable p ++ recordPats isMutable ps
+end
+
+mutual
+/-- the bindings a pattern introduces -/
+def binders : Pat → List Nat
+  | .wild => []
+  | .bind id => [id]
+  | .tuple es => bindersList es
+  | .variant ds => bindersList ds
+  | .struct fs => bindersList fs
+  | .or l r => binders l ++ binders r
+
+def bindersList : List Pat → List Nat
+  | [] => []
+  | p :: ps => binders p ++ bindersList ps
+end
+
 /-! ### the emitted store for a variable (F0): `x = e` / `x op= e` -/
 
 inductive Instr where
